@@ -14,7 +14,7 @@ import os
 
 KINDS = ["ok", "ok", "ok", "ok", "readonly", "full", "full-late", "space-for-m", "space-for-m-late",
          "not-permitted", "dead", "raise-nth", "raise-nth", "raise-nth", "raise-all", "error-after",
-         "disconnect-nth", "disconnect-nth", "slow-20s", "slow", "hang-nth"]
+         "disconnect-nth", "disconnect-nth", "slow-20s", "slow", "hang-nth", "raise-from", "raise-many"]
 METHODS = ["get_buckets", "allocate_buckets", "write", "write", "close", "close", "abort"]
 
 
@@ -46,6 +46,14 @@ def gen_case(rng, tier, directed=None):
                 spec["method"] = rng.choice(["get_buckets", "allocate_buckets", "allocate_buckets", "write", "close"])
         elif kind == "raise-all":
             spec["method"] = rng.choice(METHODS + [None])
+        elif kind == "raise-from":
+            # every write (or close) after the a-th fails: the server loses its buckets one after the other
+            spec["method"] = rng.choice(["write", "write", "close"])
+            spec["after"] = rng.choice([0, 1, 2, 3, 5])
+        elif kind == "raise-many":
+            # several single failures at different times: some buckets of this server die, others survive
+            spec["method"] = rng.choice(["write", "write", "close"])
+            spec["nths"] = sorted(rng.sample(range(1, 9), rng.randint(2, 3)))
         elif kind in ("space-for-m", "space-for-m-late"):
             spec["m"] = rng.choice([0, 1, 1, 2, 3])
         elif kind == "slow-20s":
@@ -81,13 +89,31 @@ def gen_case(rng, tier, directed=None):
         for s in rng.sample(range(nservers), rng.choice([1, 1, 2]) if nservers > 2 else 1):
             servers[s] = {"kind": rng.choice(["raise-nth", "disconnect-nth", "error-after"]),
                           "method": rng.choice(["write", "close"]), "nth": rng.choice([1, 1, 2])}
+    duploss = None
+    if directed == "duploss":
+        # several shares per server; one share number X already sits on a read-only server Q AND on a writable server
+        # P; P loses the buckets it is given one after the other (at different times) but keeps X.  Once P's new
+        # shares are gone P and Q can only offer the same share: the real matching drops below the server count.
+        nservers = rng.choice([3, 3, 4, 5])
+        n = rng.randint(min(10, 2 * nservers), 10)
+        k = rng.randint(1, min(3, n))
+        servers = [{"kind": "ok"} for _ in range(nservers)]
+        q, pp = rng.sample(range(nservers), 2)
+        servers[q] = {"kind": "readonly"}
+        servers[pp] = rng.choice([{"kind": "raise-from", "method": rng.choice(["write", "close"]),
+                                   "after": rng.choice([0, 0, 1, 2])},
+                                  {"kind": "raise-many", "method": "write", "nths": sorted(rng.sample(range(1, 7), 3))}])
+        duploss = (q, pp, rng.randrange(n))
     n_ok = sum(1 for sp in servers if sp["kind"] == "ok")
-    n_push = sum(1 for sp in servers if sp["kind"] in ("ok", "raise-nth", "disconnect-nth", "error-after", "slow"))
+    n_push = sum(1 for sp in servers if sp["kind"] in ("ok", "raise-nth", "disconnect-nth", "error-after", "slow",
+                                                        "raise-from", "raise-many"))
     happy = rng.choice([1, k, n_ok - 1, n_ok, n_ok, n_ok + 1, n_push, n_push - 1, nservers, n, n + 1])
     if directed == "transfer":
         happy = rng.choice([n_push, n_push - 1, n_ok, n_ok + 1])
     elif directed == "timeout":
         happy = rng.choice([n_ok, n_ok, n_ok + 1, 1])
+    elif duploss:
+        happy = rng.choice([nservers, nservers, nservers - 1])
     happy = max(1, min(n + 1, happy))
     if rng.random() < .85:
         happy = min(happy, n)
@@ -107,6 +133,13 @@ def gen_case(rng, tier, directed=None):
             if (s, sh) not in pre and servers[s]["kind"] not in ("readonly", "full"):
                 inc.append((s, sh, rng.choice([0.0, 0.3, 1.0])))
         inc = sorted(set(inc))
+    if duploss:
+        q, pp, x = duploss
+        pre = [(q, x), (pp, x)]
+        if rng.random() < .4:      # further duplicates elsewhere
+            pre.append((rng.randrange(nservers), rng.randrange(n)))
+        pre = sorted(set(pre))
+        inc = []
     batch = rng.choice([None, None, 64, 200, 1000])
     profile = rng.choice(["fifo", "per-server-fifo", "per-server-fifo", "free"])
     return dict(k=k, n=n, happy=happy, size=size, segsize=segsize, nservers=nservers, servers=servers,
@@ -145,7 +178,7 @@ class FakeDisk(object):
 def run(ck):
     from allmydata.immutable import layout
     ck.rule = ("case = (k,happy,N,size,segsize, 1..12 servers each with a kind from {ok, readonly, full, full-late, "
-               "space-for-m(-late), not-permitted, dead, raise-nth/all(method), error-after(method), disconnect-nth, "
+               "space-for-m(-late), not-permitted, dead, raise-nth/all(method), raise-from(method, a), raise-many(method, nths), error-after(method), disconnect-nth, "
                "slow-20s, slow, hang-nth}, pre-existing complete shares, pre-existing incoming shares, write batch "
                "size, transport profile, schedule seed); happy is drawn around the number of healthy/pushable servers; "
                "distinct = full case description; non-trivial = at least one non-healthy server or pre-existing share")
@@ -165,7 +198,7 @@ def run(ck):
                     break
                 continue
             rng = ck.rng("case", i)
-            case = gen_case(rng, ck.tier, {0: "timeout", 1: "transfer", 2: "transfer"}.get((i // ck.nshards) % 8))
+            case = gen_case(rng, ck.tier, {0: "timeout", 1: "transfer", 2: "transfer", 3: "duploss", 4: "duploss"}.get((i // ck.nshards) % 8))
             try:
                 with ck.watchdog(180, "case %d" % i):
                     one_case(ck, rng, case, layout, orig_defaults)
@@ -178,7 +211,8 @@ def run(ck):
     ck.require_monitor("happiness-oracle", "reported-share-oracle", "failure-oracle")
     ck.require_reach("upload-succeeded", "upload-failed-unhappy", "failed-after-transfer-started",
                      "failed-during-selection", "succeeded-after-losing-a-shareholder", "abort-delivered",
-                     "succeeded-counting-preexisting-shares", "query-timeout-crossed")
+                     "succeeded-counting-preexisting-shares", "query-timeout-crossed",
+                     "unhappy-after-repeated-losses-on-server-keeping-a-duplicate-share")
 
 
 def one_case(ck, rng, case, layout, orig_defaults):
@@ -253,6 +287,11 @@ def one_case(ck, rng, case, layout, orig_defaults):
                 vs.add_fault("raise", method=sp["method"], nth=sp["nth"])
             elif kind == "raise-all":
                 vs.add_fault("raise", method=sp["method"])
+            elif kind == "raise-from":
+                vs.add_fault("raise", method=sp["method"], after_nth=sp["after"])
+            elif kind == "raise-many":
+                for nth in sp["nths"]:
+                    vs.add_fault("raise", method=sp["method"], nth=nth)
             elif kind == "error-after":
                 vs.add_fault("raise-after", method=sp["method"], nth=sp["nth"])
             elif kind == "disconnect-nth":
@@ -356,6 +395,15 @@ def one_case(ck, rng, case, layout, orig_defaults):
             impossible = happy > min(n, len(offered))
             if unhappy:
                 ck.hit("upload-failed-unhappy")
+                # behavioural reach for the stale-happiness class: a server lost two or more buckets during the
+                # transfer while it still holds a (pre-existing) share that another server holds too
+                for vs in g.servers:
+                    losses = sum(f.fired for f in vs.faults if f.method in ("write", "close"))
+                    kept = {sh for (s_, sh) in case["preexisting"] if s_ == vs.index}
+                    dup = any(sh in kept for (s_, sh) in case["preexisting"] if s_ != vs.index)
+                    if losses >= 2 and dup:
+                        ck.hit("unhappy-after-repeated-losses-on-server-keeping-a-duplicate-share")
+                        break
                 ck.hit("err:" + res.type.__name__)
             else:
                 ck.observe("failed-with-other-error:" + res.type.__name__)
